@@ -95,9 +95,13 @@ class _P:
                 a = ("rep", a, lo, hi)
             else:
                 break
-            if self.peek() in ("?", "+") and c in "*+?{":
-                # lazy / possessive quantifier
-                raise Unsupported("lazy or possessive quantifier")
+            if self.peek() == "?" and c in "*+?{":
+                # lazy quantifier: same set of possible matches as the greedy one (only the engine's preference differs)
+                self.eat()
+            elif self.peek() == "+" and c in "*+?{":
+                # possessive quantifier: no backtracking into the repetition
+                self.eat()
+                a = ("prep", a[1], a[2], a[3])
         return a
 
     def atom(self):
@@ -199,7 +203,7 @@ def has_la(n):
     k = n[0]
     if k in ("lit", "cls", "bref", "str"):
         return False
-    if k in ("nla", "pla"):
+    if k in ("nla", "pla", "prep"):
         return True
     if k in ("cat", "alt"):
         return any(has_la(x) for x in n[1])
@@ -222,7 +226,7 @@ def has_bref(n):
         return False
     if k in ("cat", "alt"):
         return any(has_bref(x) for x in n[1])
-    if k in ("grp", "nla", "pla", "rep"):
+    if k in ("grp", "nla", "pla", "rep", "prep"):
         return has_bref(n[1])
     if k in ("cap", "capval"):
         return has_bref(n[2])
@@ -246,8 +250,8 @@ def expand_brefs(n, g):
         return (k, [expand_brefs(x, g) for x in n[1]])
     if k in ("grp", "nla", "pla"):
         return (k, expand_brefs(n[1], g))
-    if k == "rep":
-        return ("rep", expand_brefs(n[1], g), n[2], n[3])
+    if k in ("rep", "prep"):
+        return (k, expand_brefs(n[1], g), n[2], n[3])
     raise Unsupported(k)
 
 
@@ -422,6 +426,22 @@ class Tr:
             return self.lang(n[2], K, c2, lacols, grpcols)
         if k == "capval":
             raise Unsupported("look-ahead inside a capture group")
+        if k == "prep":
+            # possessive X{lo,hi}+ : k repetitions, and (unless k == hi) no further repetition is possible.
+            # Exact when a repetition of X has a unique extent at each position (true for JASM's instruction-level
+            # fragments); every witness is replayed on the real engine in any case.
+            lo, hi = n[2], n[3]
+            if hi is None or hi > MAX_UNROLL:
+                raise Unsupported(f"possessive repetition {{{lo},{hi}}} beyond the unroll limit {MAX_UNROLL}")
+            self.rewrites.add("possessive quantifier read as 'k repetitions and no further one'")
+            stop = inter(K, comp(self.lang(n[1], self.w.ANY, lacols, lacols, None)))
+            outs = []
+            for cnt in range(lo, hi + 1):
+                r = K if cnt == hi else stop
+                for _ in range(cnt):
+                    r = self.lang(n[1], r, cols, lacols, grpcols)
+                outs.append(r)
+            return union(outs)
         if k == "rep":
             lo, hi = n[2], n[3]
             if hi is None or hi > MAX_UNROLL:
